@@ -115,6 +115,12 @@ def uses_of(model: Model, cls: ClassInfo):
                     fld = e.value if isinstance(e, ast.Attribute) and e.attr == "Reference" else e
                     key = mangle(owner.name, fld.attr) if isinstance(fld, ast.Attribute) else None
                     record(e, key in guarded_fields)
+                elif isinstance(n, ast.Return) and isinstance(n.value, (ast.List, ast.Tuple)):
+                    # return [self.__a.Reference, self.__b.Reference]
+                    for e in n.value.elts:
+                        fld = e.value if isinstance(e, ast.Attribute) and e.attr == "Reference" else e
+                        key = mangle(owner.name, fld.attr) if isinstance(fld, ast.Attribute) else None
+                        record(e, key in guarded_fields)
                 elif isinstance(n, ast.Return) and isinstance(n.value, ast.ListComp):
                     lc = n.value
                     it = lc.generators[0].iter
